@@ -25,7 +25,7 @@ func encodeEscapes(r *rand.Rand, v string) string {
 	for i := 0; i < len(v); i++ {
 		c := v[i]
 		if c >= 'a' && c <= 'z' && r.Intn(5) == 0 {
-			term := []string{" ", "\t", "\n", "", "\f", "\r\n"}[r.Intn(6)]
+			term := []string{" ", "\t", "\n", "", "\f", "\r\n", "\r", "\r "}[r.Intn(8)]
 			width := []string{"%x", "%02x", "%04x", "%06x", "%X"}[r.Intn(5)]
 			next := byte(0)
 			if i+1 < len(v) {
